@@ -1,3 +1,6 @@
+(* C13 — bit layer: rank <-> (bank, bit) is a bijection; word arrays; mk_output and
+   the enumeration loop of parsec_remote_dep_activate produce the destination set in
+   increasing relative rank, each rank once. *)
 From PV Require Import Base.Tac.
 From Coq Require Import NArith FinFun.
 From PV Require Import Bcast.BcastDefs.
